@@ -231,6 +231,8 @@ def final_check(state, out):
                 e = 0.0 if L - f_hi <= 1e-6 * f_unif + 1e3 * floor else (L - f_hi) / max(denom, 1e-300)
             else:
                 e = (L - f_hi) / denom
+            if L - f_hi <= 1e-4:
+                e = min(e, 0.0) if e < 0 else 0.0     # within 1e-4 (in units of noise-normalised squared error) of the optimum: attained
             excess.append(e)
             if e <= 1e-3: break
         state.flags.add('final_%s_checked' % mode)
